@@ -16,7 +16,7 @@ LEVEL = "exploration"
 RULE = ("random consumer sequences (length 1-10, repeated and reordered, producers shared between lists) over pools of finished "
         "results; every built-in command of the CSV and NetCDF library sets is a consumer; distinct by (library set, rank, sequence "
         "of consumer command names up to 4, list arities)")
-REQUIRED_COUNTERS = ["digest_rechecks", "consumer_executions", "results_watched", "model_runs", "nonfinite_fields_watched", "large_rasters_watched"]
+REQUIRED_COUNTERS = ["digest_rechecks", "consumer_executions", "results_watched", "model_runs", "nonfinite_fields_watched", "large_rasters_watched", "file_reads_in_sequences"]
 ASSUMPTIONS = ["values stored under the mask are excluded from the digest", "NaN / infinite cells are compared by their bits"]
 
 
@@ -187,12 +187,61 @@ def run_case(ctx, case):
         ctx.count("nonfinite_fields_watched")
         arr.standin(prog, "Nn", arr.build(case["nonfinite"]), fuzzy=False)
         pool["nonfuzzy"].append("Nn")
+    # a file of the working directory that EEMSRead steps read (several times, with different options)
+    src_file = None
+    if case["rseed"] % 4 != 3:
+        base_arr = arr.build(case["nonfuzzy"][0])
+        if libs == "nc":
+            from netCDF4 import Dataset
+            src_file = os.path.join(d, "src.nc")
+            with Dataset(src_file, "w") as ds:
+                dn = []
+                for i, n_ in enumerate(shape):
+                    ds.createDimension("s%d" % i, n_)
+                    dn.append("s%d" % i)
+                v = ds.createVariable("field", "f8" if base_arr.dtype.kind == "f" else "i8", tuple(dn))
+                v[:] = numpy.ma.getdata(base_arr)
+                vf = ds.createVariable("fz", "f8", tuple(dn))
+                vf[:] = numpy.clip(numpy.ma.getdata(arr.build(case["fuzzy"][0])) * 1.01, -1.015, 1.015)
+        elif len(shape) == 1:
+            src_file = os.path.join(d, "src.csv")
+            with open(src_file, "w") as fh:
+                fh.write("field\n" + "\n".join(repr(x) for x in numpy.ma.getdata(base_arr).tolist()) + "\n")
     recorded = _digests(prog)
     seqnames = []
     template = None
     consumers = sorted(n for n, info in cat.items() if info["result_inputs"])
     for step in range(case["steps"]):
         cmd = rng.choice(consumers)
+        if src_file and rng.random() < 0.25:
+            # a (further) read of the same file: it produces a new result and leaves the earlier ones alone
+            vals = [x for x in arr.cells(arr.build(case["nonfuzzy"][0])) if x is not None]
+            rargs = {"InFileName": src_file, "InFieldName": "field"}
+            if rng.random() < 0.6 and vals:
+                rargs["MissingVal" if libs == "csv" else "MissingValue"] = rng.choice(vals)
+            if libs == "nc" and rng.random() < 0.3:
+                rargs = {"InFileName": src_file, "InFieldName": "fz", "DataType": "Fuzzy"}
+            elif rng.random() < 0.3:
+                rargs["DataType"] = rng.choice(["Float", "Integer"]) if case["nonfuzzy"][0]["dtype"].startswith("int") else "Float"
+            name = "Rd%d" % step
+            out = arr.invoke(prog, "EEMSRead", name, rargs)
+            seqnames.append("EEMSRead")
+            ctx.count("consumer_executions")
+            ctx.count("file_reads_in_sequences")
+            now = _digests(prog)
+            ctx.count("digest_rechecks", len(recorded))
+            for rn, dg in recorded.items():
+                if now.get(rn) != dg:
+                    ctx.fail("EEMSRead:changes-an-earlier-result", {"read": rargs, "changed_result": rn, "changed_result_produced_by": type(prog.commands[rn]).__name__, "now": arr.describe(prog.commands[rn]._result, 8)})
+                    return
+            if out.ok and isinstance(out.value, numpy.ndarray) and out.value.shape == shape:
+                recorded[name] = now[name]
+                pool["fuzzy" if rargs.get("DataType") == "Fuzzy" else "nonfuzzy"].append(name)
+                if rargs.get("DataType") == "Fuzzy":
+                    prog.commands[name].is_fuzzy = True
+            else:
+                prog.commands.pop(name, None)
+            continue
         info = cat[cmd]
         is_writer = not info["is_data"] and cmd != "PrintVars"
         if is_writer and len(shape) != 1 and libs == "csv":
